@@ -96,14 +96,26 @@ theorem c01_fs_removetree (v : Model.Fs.Vol) (count : Nat) (hv : Proofs.FsInv.Vo
 /-- `removetree(path)` against the abstract "delete the subtree" specification, frame half: in every state with
     the invariant — any tree, whether the call succeeds, fails at once or stops half-way — the entries that are
     not at or below `path` are exactly those before the call (order, kind, size), and the call adds no entry.
-    (The other half — nothing at or below `path` is left after a successful call — is decided by lock step with
-    the real code, suite `fsmodel`; it is not a theorem, so this is the `partial` form of the delete-subtree statement.) -/
+    (The other half is `c01_fs_removetree_complete`.) -/
 theorem c01_fs_removetree_frame (v : Model.Fs.Vol) (count : Nat) (hv : Proofs.FsInv.VolOK v count) (s : Model.Fs.St)
     (h : Proofs.FsInv.Inv v count s) (path : List Nat) :
     (Model.Fs.abs (Model.Fs.removetree v s path).1).filter (Proofs.FsTreeRm.outside path) =
         (Model.Fs.abs s).filter (Proofs.FsTreeRm.outside path) ∧
       (Model.Fs.abs (Model.Fs.removetree v s path).1).Sublist (Model.Fs.abs s) :=
   Proofs.FsTreeRm.removetree_frame hv h path
+
+/-- `removetree(path)`, the other half of the delete-subtree specification: when the last call it makes —
+    `removedir(path)` on what is left of the directory — succeeds, no entry at or below `path` remains; with the
+    frame half the tree afterwards is the tree before minus the subtree of `path`.  `…_partial`: that the inner
+    calls leave the directory empty (so that this last call does succeed) in *every* state with the invariant is
+    not a theorem; it is decided on the real code by lock step (suite `fsmodel`). -/
+theorem c01_fs_removetree_complete_partial (v : Model.Fs.Vol) (count : Nat) (hv : Proofs.FsInv.VolOK v count)
+    (s : Model.Fs.St) (h : Proofs.FsInv.Inv v count s) (path : List Nat) (d : Model.Fs.Node)
+    (hr : Model.Fs.resolve s.nodes path = some (.node d)) (hd : d.isDir = true)
+    (hok : (Model.Fs.step v (Model.Fs.run v s
+        (Model.Fs.expandTree (s.nodes.length + 1) s.nodes path (.node d)).dropLast) (.removedir path)).2 = .ok true) :
+    ∀ e ∈ Model.Fs.abs (Model.Fs.removetree v s path).1, Proofs.FsTreeRm.outside path e = true :=
+  Proofs.FsTreeRm.removetree_complete hv h path d hr hd hok
 
 /-- path resolution through the directories (what `get_entry` does) is lookup by path -/
 theorem c01_fs_lookup (nodes : List Model.Fs.Node) (h : Proofs.FsTree.TreeInv nodes) (q : List Nat) (hq : q ≠ []) :
@@ -129,6 +141,12 @@ example : Model.Fs.abs (Model.Fs.run demoVol demoSt (demoOps.take 4)) =
     [⟨[1], true, 0⟩, ⟨[1, 2], false, 700⟩, ⟨[3], false, 0⟩] := by decide
 example : Model.Fs.abs (Model.Fs.removetree demoVol (Model.Fs.run demoVol demoSt (demoOps.take 4)) [1]).1 =
     [⟨[3], false, 0⟩] := by decide
+-- … and the premise of the other half (the final `removedir` succeeds) is met there
+example : (Model.Fs.step demoVol (Model.Fs.run demoVol (Model.Fs.run demoVol demoSt (demoOps.take 4))
+    (Model.Fs.expandTree 4 (Model.Fs.run demoVol demoSt (demoOps.take 4)).nodes [1]
+      (.node ⟨[1], 0, 1, true, [2], 0, 2⟩)).dropLast) (.removedir [1])).2 = .ok true := by decide
+example : Model.Fs.resolve (Model.Fs.run demoVol demoSt (demoOps.take 4)).nodes [1] =
+    some (.node ⟨[1], 0, 1, true, [2], 0, 2⟩) := by decide
 example : (Model.Fs.removetree demoVol (Model.Fs.run demoVol demoSt (demoOps.take 4)) [1]).1.fat =
     [4088, 4095, 0, 0, 0, 0, 0, 0] := by decide
 example : (Model.Fs.run demoVol demoSt demoOps).fat = [4088, 4095, 4095, 4095, 0, 0, 0, 0] := by decide
